@@ -476,12 +476,16 @@ func (fe *FnEnc) applyContract(st *State, instr ssa.Instruction, fc *FuncContrac
 
 // cutPoints: `assert [label] after call Key#k: e` clauses of the function under verification: proved here, usable afterwards
 func (fe *FnEnc) cutPoints(st *State, key string, ord int, pos token.Pos) {
+	fe.cutPointsAt(st, key, ord, pos, true)
+}
+
+func (fe *FnEnc) cutPointsAt(st *State, key string, ord int, pos token.Pos, after bool) {
 	if fe.contract == nil || fe.dry {
 		return
 	}
 	for i := range fe.contract.Asserts {
 		as := &fe.contract.Asserts[i]
-		if !as.After || as.Callee != key || as.K != ord {
+		if as.After != after || as.Callee != key || as.K != ord {
 			continue
 		}
 		var l *Loop
@@ -695,6 +699,7 @@ func (fe *FnEnc) callCallback(st *State, instr ssa.Instruction, common *ssa.Call
 		pre := st.clone()
 		envPre := mkEnv(pre, pre, nil)
 		fe.callOrd[fc.Key]++
+		fe.cutPointsAt(st, fc.Key, fe.callOrd[fc.Key], instr.Pos(), false)
 		for i := range fc.Requires {
 			cl := &fc.Requires[i]
 			fe.addOblExpr(st, "pre", fmt.Sprintf("%s:%s@%d", fc.Key, cl.Label, fe.callOrd[fc.Key]), unionProps(fc.Props, fe.propsFor(nil)), cl.E, envPre, instr.Pos())
@@ -703,10 +708,12 @@ func (fe *FnEnc) callCallback(st *State, instr ssa.Instruction, common *ssa.Call
 		rets := fe.freshResults(st, sig, fname)
 		env := mkEnv(pre, st, rets)
 		for i := range fc.Ensures {
-			fe.assume(st, fe.trBool(fc.Ensures[i].E, env))
+			cl := &fc.Ensures[i]
+			fe.assumeClause(st, fmt.Sprintf("call.%s@%d.%s", fc.Key, fe.callOrd[fc.Key], cl.Label), cl.E, env)
 		}
 		fe.assumed["callback contract (assumed): "+fc.Key] = true
 		fe.setResult(st, res, sig, rets)
+		fe.cutPointsAt(st, fc.Key, fe.callOrd[fc.Key], instr.Pos(), true)
 		return true
 	}
 	return false
